@@ -80,17 +80,17 @@ Print Assumptions coordinator_chain_linked.
    position by position parents, state root, patch digest, policy and the canonical patch content agree, and so do
    the final state roots - or H collides. *)
 Theorem replay_anchored : forall (H : bytes -> N) (St : Type) (apply : St -> list op -> option St) (root : St -> N)
-  (u0 : N) es es' t t' w w' r r',
+  (lc : bool) (wl u0 : N) es es' t t' w w' r r',
   Forall (fun e => wf_entry e = true) es -> Forall (fun e => wf_entry e = true) es' ->
-  run H St apply root u0 es t w = inr r -> run H St apply root u0 es' t' w' = inr r' ->
+  run H St apply root lc wl u0 es t w = inr r -> run H St apply root lc wl u0 es' t' w' = inr r' ->
   map e_commit es = map e_commit es' ->
   root (rs_state w) = root (rs_state w') ->
   (Forall2 core_eq es es' /\ root (rs_state r) = root (rs_state r')) \/ Collision H.
 Proof. exact replay_anchored_proof. Qed.
 Check replay_anchored : forall (H : bytes -> N) (St : Type) (apply : St -> list op -> option St) (root : St -> N)
-  (u0 : N) es es' t t' w w' r r',
+  (lc : bool) (wl u0 : N) es es' t t' w w' r r',
   Forall (fun e => wf_entry e = true) es -> Forall (fun e => wf_entry e = true) es' ->
-  run H St apply root u0 es t w = inr r -> run H St apply root u0 es' t' w' = inr r' ->
+  run H St apply root lc wl u0 es t w = inr r -> run H St apply root lc wl u0 es' t' w' = inr r' ->
   map e_commit es = map e_commit es' ->
   root (rs_state w) = root (rs_state w') ->
   (Forall2 core_eq es es' /\ root (rs_state r) = root (rs_state r')) \/ Collision H.
@@ -101,71 +101,115 @@ Print Assumptions replay_anchored.
    with a typed error, or yields exactly the original core result (graph state, state root, commit-id chain, tick),
    or H collides, or the state root collides. *)
 Theorem replay_single_field_tamper : forall (H : bytes -> N) (St : Type) (apply : St -> list op -> option St)
-  (root : St -> N) (u0 : N), (forall a b : St, {a = b} + {a <> b}) ->
+  (root : St -> N) (lc : bool) (wl u0 : N), (forall a b : St, {a = b} + {a <> b}) ->
   forall h i e e' n t w r,
   nth_error h i = Some e -> alters_one_field e e' ->
   Forall (fun x => wf_entry x = true) h -> wf_entry e' = true ->
-  run H St apply root u0 (firstn n h) t w = inr r ->
-  (exists x, run H St apply root u0 (firstn n (replace_nth i e' h)) t w = inl x)
-  \/ (exists r', run H St apply root u0 (firstn n (replace_nth i e' h)) t w = inr r' /\
+  run H St apply root lc wl u0 (firstn n h) t w = inr r ->
+  (exists x, run H St apply root lc wl u0 (firstn n (replace_nth i e' h)) t w = inl x)
+  \/ (exists r', run H St apply root lc wl u0 (firstn n (replace_nth i e' h)) t w = inr r' /\
                  core_result St root r' = core_result St root r)
   \/ Collision H \/ RootCollision St root.
 Proof. exact replay_single_field_tamper_proof. Qed.
 Check replay_single_field_tamper : forall (H : bytes -> N) (St : Type) (apply : St -> list op -> option St)
-  (root : St -> N) (u0 : N), (forall a b : St, {a = b} + {a <> b}) ->
+  (root : St -> N) (lc : bool) (wl u0 : N), (forall a b : St, {a = b} + {a <> b}) ->
   forall h i e e' n t w r,
   nth_error h i = Some e -> alters_one_field e e' ->
   Forall (fun x => wf_entry x = true) h -> wf_entry e' = true ->
-  run H St apply root u0 (firstn n h) t w = inr r ->
-  (exists x, run H St apply root u0 (firstn n (replace_nth i e' h)) t w = inl x)
-  \/ (exists r', run H St apply root u0 (firstn n (replace_nth i e' h)) t w = inr r' /\
+  run H St apply root lc wl u0 (firstn n h) t w = inr r ->
+  (exists x, run H St apply root lc wl u0 (firstn n (replace_nth i e' h)) t w = inl x)
+  \/ (exists r', run H St apply root lc wl u0 (firstn n (replace_nth i e' h)) t w = inr r' /\
                  core_result St root r' = core_result St root r)
   \/ Collision H \/ RootCollision St root.
 Print Assumptions replay_single_field_tamper.
 
-(* FULL statement (replay_any_tamper): "for every alteration h' of a verified history h, replay h' fails or yields
-   the original core result, up to collisions".  It is FALSE of the replay verifier as it is: an entry replaced by a
-   copy of a later one (duplication / swap / transplant) is accepted when its patch is an absolute write - replay
-   checks each entry against itself only, never against its coordinate or its predecessor.  For EVERY H: *)
-Theorem replay_any_tamper_refuted : forall (H : bytes -> N),
-  exists (h : list entry) (dup : entry),
-    nth_error h 1 = Some dup /\
-    exists r r1 r1' r',
-      run H N wapply wroot 0 h 0 wbase = inr r /\
-      run H N wapply wroot 0 (firstn 1 h) 0 wbase = inr r1 /\
-      run H N wapply wroot 0 (firstn 1 (replace_nth 0 dup h)) 0 wbase = inr r1' /\
-      rs_state r1 <> rs_state r1' /\ rs_tick N r1 = rs_tick N r1' /\
-      run H N wapply wroot 0 (replace_nth 0 dup h) 0 wbase = inr r'.
-Proof. exact replay_any_tamper_refuted_proof. Qed.
-Check replay_any_tamper_refuted : forall (H : bytes -> N),
-  exists (h : list entry) (dup : entry),
-    nth_error h 1 = Some dup /\
-    exists r r1 r1' r',
-      run H N wapply wroot 0 h 0 wbase = inr r /\
-      run H N wapply wroot 0 (firstn 1 h) 0 wbase = inr r1 /\
-      run H N wapply wroot 0 (firstn 1 (replace_nth 0 dup h)) 0 wbase = inr r1' /\
-      rs_state r1 <> rs_state r1' /\ rs_tick N r1 = rs_tick N r1' /\
-      run H N wapply wroot 0 (replace_nth 0 dup h) 0 wbase = inr r'.
-Print Assumptions replay_any_tamper_refuted.
+(* Structural tamper - entry swap, duplication, removal, repetition, as-is transplant from another worldline, in any
+   combination: if the edited history (entries drawn from the original one, or carrying another worldline id) still
+   passes replay, it is a PREFIX of the original.  So the only structural edit replay does not reject is truncation,
+   and that yields the original result for the tick reached (replay_truncation). *)
+Theorem replay_structural_tamper : forall (H : bytes -> N) (St : Type) (apply : St -> list op -> option St)
+  (root : St -> N) (wl u0 : N) es es' t w w' r r',
+  run H St apply root true wl u0 es t w = inr r ->
+  (forall y, In y es' -> In y es \/ e_wl y <> wl) ->
+  run H St apply root true wl u0 es' t w' = inr r' ->
+  es' = firstn (length es') es.
+Proof. exact replay_structural_tamper_on. Qed.
+Check replay_structural_tamper : forall (H : bytes -> N) (St : Type) (apply : St -> list op -> option St)
+  (root : St -> N) (wl u0 : N) es es' t w w' r r',
+  run H St apply root true wl u0 es t w = inr r ->
+  (forall y, In y es' -> In y es \/ e_wl y <> wl) ->
+  run H St apply root true wl u0 es' t w' = inr r' ->
+  es' = firstn (length es') es.
+Print Assumptions replay_structural_tamper.
 
-(* What IS provable about arbitrary tampering (partial form of replay_any_tamper): for chains whose entries name
+(* Arbitrary tampering (the general replay_any_tamper): a tip can always be replaced by another valid child of the
+   same parent, so the strongest true statement needs an anchor.  With the link check replay ties every entry to its
+   predecessor: ONE trusted tip commit id pins the whole commit-id chain of any single-parent history that verifies
+   (then replay_anchored pins every committed field and the state root), up to a collision. *)
+Theorem replay_tip_anchored : forall (H : bytes -> N) (St : Type) (apply : St -> list op -> option St)
+  (root : St -> N) (wl u0 : N) es es' e e' t t' w w' r r',
+  length es = length es' ->
+  Forall (fun x => wf_entry x = true) (es ++ [e]) -> Forall (fun x => wf_entry x = true) (es' ++ [e']) ->
+  (forall x, In x (es ++ [e]) -> (length (parent_ids x) <= 1)%nat) ->
+  (forall x, In x (es' ++ [e']) -> (length (parent_ids x) <= 1)%nat) ->
+  run H St apply root true wl u0 (es ++ [e]) t w = inr r -> run H St apply root true wl u0 (es' ++ [e']) t' w' = inr r' ->
+  e_commit e = e_commit e' ->
+  map e_commit (es ++ [e]) = map e_commit (es' ++ [e']) \/ Collision H.
+Proof. exact replay_tip_anchored_on. Qed.
+Check replay_tip_anchored : forall (H : bytes -> N) (St : Type) (apply : St -> list op -> option St)
+  (root : St -> N) (wl u0 : N) es es' e e' t t' w w' r r',
+  length es = length es' ->
+  Forall (fun x => wf_entry x = true) (es ++ [e]) -> Forall (fun x => wf_entry x = true) (es' ++ [e']) ->
+  (forall x, In x (es ++ [e]) -> (length (parent_ids x) <= 1)%nat) ->
+  (forall x, In x (es' ++ [e']) -> (length (parent_ids x) <= 1)%nat) ->
+  run H St apply root true wl u0 (es ++ [e]) t w = inr r -> run H St apply root true wl u0 (es' ++ [e']) t' w' = inr r' ->
+  e_commit e = e_commit e' ->
+  map e_commit (es ++ [e]) = map e_commit (es' ++ [e']) \/ Collision H.
+Print Assumptions replay_tip_anchored.
+
+(* Why the coordinate / link check is there: WITHOUT it (lc = false, advance_replay_state before the fix) the statement
+   "every alteration is rejected or yields the original result" is false - an entry replaced by a copy of a later one
+   is accepted whenever its patch is an absolute write, because each entry is then only checked against itself.
+   For EVERY hash function: *)
+Theorem unlinked_replay_any_tamper_refuted : forall (H : bytes -> N),
+  exists (h : list entry) (dup : entry),
+    nth_error h 1 = Some dup /\
+    exists r r1 r1' r',
+      run H N wapply wroot false 1 0 h 0 wbase = inr r /\
+      run H N wapply wroot false 1 0 (firstn 1 h) 0 wbase = inr r1 /\
+      run H N wapply wroot false 1 0 (firstn 1 (replace_nth 0 dup h)) 0 wbase = inr r1' /\
+      rs_state r1 <> rs_state r1' /\ rs_tick N r1 = rs_tick N r1' /\
+      run H N wapply wroot false 1 0 (replace_nth 0 dup h) 0 wbase = inr r'.
+Proof. exact replay_any_tamper_refuted_proof. Qed.
+Check unlinked_replay_any_tamper_refuted : forall (H : bytes -> N),
+  exists (h : list entry) (dup : entry),
+    nth_error h 1 = Some dup /\
+    exists r r1 r1' r',
+      run H N wapply wroot false 1 0 h 0 wbase = inr r /\
+      run H N wapply wroot false 1 0 (firstn 1 h) 0 wbase = inr r1 /\
+      run H N wapply wroot false 1 0 (firstn 1 (replace_nth 0 dup h)) 0 wbase = inr r1' /\
+      rs_state r1 <> rs_state r1' /\ rs_tick N r1 = rs_tick N r1' /\
+      run H N wapply wroot false 1 0 (replace_nth 0 dup h) 0 wbase = inr r'.
+Print Assumptions unlinked_replay_any_tamper_refuted.
+
+(* The chain-level core of replay_tip_anchored, for either setting of the check: for chains whose entries name
    their predecessor as only parent - what the coordinator produces, and what a verifier that also checked the link
    would enforce - one trusted tip commit id pins the whole commit-id chain (hence, by replay_anchored, every
    committed field of every entry), up to a collision. *)
 Theorem linked_tip_binds_partial : forall (H : bytes -> N) (St : Type) (apply : St -> list op -> option St)
-  (root : St -> N) (u0 : N) es es' e e' t t' w w' r r',
+  (root : St -> N) (lc : bool) (wl u0 : N) es es' e e' t t' w w' r r',
   length es = length es' ->
   Forall (fun x => wf_entry x = true) (es ++ [e]) -> Forall (fun x => wf_entry x = true) (es' ++ [e']) ->
-  run H St apply root u0 (es ++ [e]) t w = inr r -> run H St apply root u0 (es' ++ [e']) t' w' = inr r' ->
+  run H St apply root lc wl u0 (es ++ [e]) t w = inr r -> run H St apply root lc wl u0 (es' ++ [e']) t' w' = inr r' ->
   linked (es ++ [e]) -> linked (es' ++ [e']) ->
   e_commit e = e_commit e' ->
   map e_commit (es ++ [e]) = map e_commit (es' ++ [e']) \/ Collision H.
 Proof. exact linked_tip_binds_proof. Qed.
 Check linked_tip_binds_partial : forall (H : bytes -> N) (St : Type) (apply : St -> list op -> option St)
-  (root : St -> N) (u0 : N) es es' e e' t t' w w' r r',
+  (root : St -> N) (lc : bool) (wl u0 : N) es es' e e' t t' w w' r r',
   length es = length es' ->
   Forall (fun x => wf_entry x = true) (es ++ [e]) -> Forall (fun x => wf_entry x = true) (es' ++ [e']) ->
-  run H St apply root u0 (es ++ [e]) t w = inr r -> run H St apply root u0 (es' ++ [e']) t' w' = inr r' ->
+  run H St apply root lc wl u0 (es ++ [e]) t w = inr r -> run H St apply root lc wl u0 (es' ++ [e']) t' w' = inr r' ->
   linked (es ++ [e]) -> linked (es' ++ [e']) ->
   e_commit e = e_commit e' ->
   map e_commit (es ++ [e]) = map e_commit (es' ++ [e']) \/ Collision H.
@@ -173,39 +217,39 @@ Print Assumptions linked_tip_binds_partial.
 
 (* Truncation: every tick still available replays exactly as before; beyond it: HistoryUnavailable. *)
 Theorem replay_truncation : forall (H : bytes -> N) (St : Type) (apply : St -> list op -> option St) (root : St -> N)
-  h k base bw target,
+  (lc : bool) (wl : N) h k base bw target,
   (k <= length (h_entries h))%nat ->
   (target <= N.of_nat k ->
-     replay_at H St apply root (trunc h k) base bw target = replay_at H St apply root h base bw target)
+     replay_at H St apply root lc wl (trunc h k) base bw target = replay_at H St apply root lc wl h base bw target)
   /\ (N.of_nat k < target ->
-        replay_at H St apply root (trunc h k) base bw target = inl (EHistoryUnavailable target)).
+        replay_at H St apply root lc wl (trunc h k) base bw target = inl (EHistoryUnavailable target)).
 Proof. exact replay_truncation_proof. Qed.
 Check replay_truncation : forall (H : bytes -> N) (St : Type) (apply : St -> list op -> option St) (root : St -> N)
-  h k base bw target,
+  (lc : bool) (wl : N) h k base bw target,
   (k <= length (h_entries h))%nat ->
   (target <= N.of_nat k ->
-     replay_at H St apply root (trunc h k) base bw target = replay_at H St apply root h base bw target)
+     replay_at H St apply root lc wl (trunc h k) base bw target = replay_at H St apply root lc wl h base bw target)
   /\ (N.of_nat k < target ->
-        replay_at H St apply root (trunc h k) base bw target = inl (EHistoryUnavailable target)).
+        replay_at H St apply root lc wl (trunc h k) base bw target = inl (EHistoryUnavailable target)).
 Print Assumptions replay_truncation.
 
 (* A checkpoint accepted by add_checkpoint carries the root and the exact tick history of the verified replay. *)
 Theorem checkpoint_validated : forall (H : bytes -> N) (St : Type) (apply : St -> list op -> option St)
-  (root : St -> N) (u0 : N) (art_eqb : art -> art -> bool),
+  (root : St -> N) (lc : bool) (wl u0 : N) (art_eqb : art -> art -> bool),
   (forall a b, art_eqb a b = true -> a = b) ->
   forall h cp base bw r,
   h_u0 h = u0 ->
   validate_checkpoint H St root art_eqb h cp = None ->
-  replay_at H St apply root h base bw (cp_tick cp) = inr r ->
+  replay_at H St apply root lc wl h base bw (cp_tick cp) = inr r ->
   root (rs_state (cp_state cp)) = root (rs_state r) /\ rs_hist (cp_state cp) = rs_hist r.
 Proof. exact checkpoint_validated_proof. Qed.
 Check checkpoint_validated : forall (H : bytes -> N) (St : Type) (apply : St -> list op -> option St)
-  (root : St -> N) (u0 : N) (art_eqb : art -> art -> bool),
+  (root : St -> N) (lc : bool) (wl u0 : N) (art_eqb : art -> art -> bool),
   (forall a b, art_eqb a b = true -> a = b) ->
   forall h cp base bw r,
   h_u0 h = u0 ->
   validate_checkpoint H St root art_eqb h cp = None ->
-  replay_at H St apply root h base bw (cp_tick cp) = inr r ->
+  replay_at H St apply root lc wl h base bw (cp_tick cp) = inr r ->
   root (rs_state (cp_state cp)) = root (rs_state r) /\ rs_hist (cp_state cp) = rs_hist r.
 Print Assumptions checkpoint_validated.
 
@@ -213,12 +257,12 @@ Print Assumptions checkpoint_validated.
    but bound by nothing; altering one leaves the core result unchanged. *)
 Theorem diagnostics_unbound_refuted : forall (H : bytes -> N),
   exists e e', agree_except Fpatch e e' /\
-    exists r r', run H N wapply wroot 0 [e] 0 wbase = inr r /\ run H N wapply wroot 0 [e'] 0 wbase = inr r' /\
+    exists r r', run H N wapply wroot false 1 0 [e] 0 wbase = inr r /\ run H N wapply wroot false 1 0 [e'] 0 wbase = inr r' /\
                  core_result N wroot r = core_result N wroot r' /\ map a_plan (rs_hist r) <> map a_plan (rs_hist r').
 Proof. exact diagnostics_unbound_refuted_proof. Qed.
 Check diagnostics_unbound_refuted : forall (H : bytes -> N),
   exists e e', agree_except Fpatch e e' /\
-    exists r r', run H N wapply wroot 0 [e] 0 wbase = inr r /\ run H N wapply wroot 0 [e'] 0 wbase = inr r' /\
+    exists r r', run H N wapply wroot false 1 0 [e] 0 wbase = inr r /\ run H N wapply wroot false 1 0 [e'] 0 wbase = inr r' /\
                  core_result N wroot r = core_result N wroot r' /\ map a_plan (rs_hist r) <> map a_plan (rs_hist r').
 Print Assumptions diagnostics_unbound_refuted.
 
@@ -232,8 +276,9 @@ Example c05_nonvacuous :
                 e_root := 5; e_pdig := e_pdig (we0 Hpoly); e_commit := e_commit (we0 Hpoly);
                 e_patch := e_patch (we0 Hpoly); e_receipt := None; e_outputs := []; e_atoms := 0 |} in
   forallb wf_entry h = true /\ wf_entry e0' = true /\ agree_except Froot (we0 Hpoly) e0' /\
-  (exists r, run Hpoly N wapply wroot 0 (firstn 2 h) 0 (wbase) = inr r /\ rs_state r = 2 /\ rs_tick N r = 2) /\
-  run Hpoly N wapply wroot 0 (firstn 2 (replace_nth 0 e0' h)) 0 wbase = inl (EStateRoot 0) /\
+  (exists r, run Hpoly N wapply wroot true 1 0 (firstn 2 h) 0 (wbase) = inr r /\ rs_state r = 2 /\ rs_tick N r = 2) /\
+  run Hpoly N wapply wroot true 1 0 (firstn 2 (replace_nth 0 e0' h)) 0 wbase = inl (EStateRoot 0) /\
+  run Hpoly N wapply wroot true 1 0 [we1 Hpoly; we1 Hpoly] 0 wbase = inl (EEntryTick 0) /\
   linked h /\ e_commit (we0 Hpoly) <> e_commit (we1 Hpoly) /\
   wf_cbody {| cb_parents := [e_commit (we0 Hpoly)]; cb_root := 2; cb_pdig := e_pdig (we1 Hpoly); cb_policy := 0 |} = true.
 Proof.
@@ -243,6 +288,7 @@ Proof.
   { unfold agree_except. repeat split; intros Hf; try reflexivity. exfalso; apply Hf; reflexivity. }
   split.
   { eexists. split; [vm_compute; reflexivity|]. split; vm_compute; reflexivity. }
+  split; [vm_compute; reflexivity|].
   split; [vm_compute; reflexivity|].
   split.
   { intros [|[|i]] a b Ha Hb; cbn in Ha, Hb; try discriminate.
